@@ -1,6 +1,6 @@
 //! Calibration items 1-3: corpus agreement and negative controls for vet.
 
-use gomini::{calibrate, vet_source};
+use gomini::vet_source;
 use std::path::Path;
 
 const CORPUS: &str = "/repo/crates/compiler/src/tests/pipeline";
@@ -11,7 +11,7 @@ fn golden(name: &str) -> String {
 
 #[test]
 fn corpus_vet_and_run() {
-    let rep = calibrate::calibrate(Path::new(CORPUS));
+    let rep = gomini::calibrate(Path::new(CORPUS));
     for f in &rep.failures {
         eprintln!("FAILURE: {}", f);
     }
